@@ -20,17 +20,17 @@ type Recorder struct {
 	Stream []byte
 	Expect int // next stream position a handler is expected to read
 
-	Kind string // scenario role of this connection (scripted matchers may filter on it)
-	ID   string // connection id in multi-connection runs
+	Kind string    // scenario role of this connection (scripted matchers may filter on it)
+	ID   string    // connection id in multi-connection runs
 	Sink *Recorder // when set, events are ALSO appended to this shared recorder with "c": ID
 
-	branchMu   sync.Mutex
-	BranchSegs Segs // what a tee branch has read so far
-	BranchDone bool
-	branchExp  int
-	Raw []byte // raw bytes kept by the "termraw" handler
-	EchoL, EchoR int // route whose real echo handler ran (0: none)
-	TeeAt      int // stream position at which the tee started (-1: no tee)
+	branchMu     sync.Mutex
+	BranchSegs   Segs // what a tee branch has read so far
+	BranchDone   bool
+	branchExp    int
+	Raw          []byte // raw bytes kept by the "termraw" handler
+	EchoL, EchoR int    // route whose real echo handler ran (0: none)
+	TeeAt        int    // stream position at which the tee started (-1: no tee)
 
 	T0 time.Time // when set, every event is stamped with "t" = milliseconds since T0
 
